@@ -11,7 +11,7 @@
 use crate::alloc::lib;
 use crate::env::Env;
 use crate::net::Client;
-use crate::p07::{receiver_loop, wind_down, Leave, Op, RecvScript, Shared};
+use crate::p07::{receiver_loop, wind_down, Leave, Op, RecvScript, SafeQueueOps, Shared, LIB_PANICKED};
 use crate::report::Violation;
 use crate::util::{now_ns, sleep_us, spawn_named, CalWindow, Rng, J};
 use crate::Ctx;
@@ -119,7 +119,7 @@ fn workload_a(ctx: &Ctx, env: &Env, rng: &mut Rng, cs: u64) {
     let pre_block = rng.chance(2, 3);
     if pre_block {
         // unblock issued *while* receivers block: wait until all c are inside recv
-        wait_for(Duration::from_millis(500), || server.verif_queue_snapshot().blocked_pop == c);
+        wait_for(Duration::from_millis(500), || server.vsnap().blocked_pop == c);
     }
     let cal = CalWindow::open();
     // unblock threads and a client, racing
@@ -133,7 +133,7 @@ fn workload_a(ctx: &Ctx, env: &Env, rng: &mut Rng, cs: u64) {
             for g in gaps {
                 sleep_us(g);
                 sh2.ev_pub("unb", "unblock()".into());
-                s.unblock();
+                s.vunblock();
                 issued.fetch_add(1, Ordering::SeqCst);
             }
         }));
@@ -169,7 +169,7 @@ fn workload_a(ctx: &Ctx, env: &Env, rng: &mut Rng, cs: u64) {
     sleep_us(5000);
     let released = sh.unblocked_returns.load(Ordering::SeqCst);
     let del = sh.delivered.lock().unwrap().clone();
-    let snap = server.verif_queue_snapshot();
+    let snap = server.vsnap();
     let healthy = cal.healthy(Duration::from_millis(150));
     let detail = || {
         J::obj()
@@ -268,7 +268,7 @@ fn workload_b(ctx: &Ctx, env: &Env, rng: &mut Rng, cs: u64) {
             return;
         }
     };
-    let base = server.verif_queue_snapshot();
+    let base = server.vsnap();
     if base.elems != 0 || base.tokens != 0 {
         rep.inconclusive("B: queue not empty at start");
         return;
@@ -277,12 +277,12 @@ fn workload_b(ctx: &Ctx, env: &Env, rng: &mut Rng, cs: u64) {
     let mut pushes = base.pushes;
     for t in &items {
         if *t {
-            server.unblock();
+            server.vunblock();
         } else {
             cl.send(format!("GET /q/{:x}/0/{} HTTP/1.1\r\nHost: h\r\n\r\n", trial, k).as_bytes());
             k += 1;
             pushes += 1;
-            if !wait_for(Duration::from_millis(1500), || server.verif_queue_snapshot().pushes >= pushes) {
+            if !wait_for(Duration::from_millis(1500), || server.vsnap().pushes >= pushes) {
                 rep.inconclusive("B: request did not reach the queue");
                 return;
             }
@@ -344,7 +344,7 @@ fn workload_b(ctx: &Ctx, env: &Env, rng: &mut Rng, cs: u64) {
                         r
                     }
                     Err(_) => {
-                        let snap = server.verif_queue_snapshot();
+                        let snap = server.vsnap();
                         calls.push(format!("#{} {:?} -> DID NOT RETURN within 1.5 s; queue snapshot {:?}", ci, op, snap));
                         if verdict.is_none() {
                             verdict = Some((
@@ -358,7 +358,7 @@ fn workload_b(ctx: &Ctx, env: &Env, rng: &mut Rng, cs: u64) {
                                 ),
                             ));
                         }
-                        server.unblock();
+                        server.vunblock();
                         let _ = h.join();
                         // drain a possibly left-over token of ours
                         let _ = server.try_recv().map(|r| r.map(|rq| rq.respond(Response::from_string("drained"))));
@@ -410,7 +410,7 @@ fn workload_b(ctx: &Ctx, env: &Env, rng: &mut Rng, cs: u64) {
     let _ = cl.await_finals(nreq.min(ncalls), &|_| false, Duration::from_millis(50));
     // drain what the calls did not consume
     for _ in 0..100 {
-        let s = server.verif_queue_snapshot();
+        let s = server.vsnap();
         if s.elems == 0 && s.tokens == 0 {
             break;
         }
@@ -470,7 +470,7 @@ fn workload_c(ctx: &Ctx, env: &Env, rng: &mut Rng, cs: u64) {
         for g in ugaps {
             sleep_us(g);
             sh2.ev_pub("unb", "unblock()".into());
-            s2.unblock();
+            s2.vunblock();
         }
     });
     let addr = env.addr.clone();
@@ -500,7 +500,7 @@ fn workload_c(ctx: &Ctx, env: &Env, rng: &mut Rng, cs: u64) {
     let t0 = Instant::now();
     let mut stuck_since: Option<Instant> = None;
     loop {
-        let s = server.verif_queue_snapshot();
+        let s = server.vsnap();
         let stuck = (s.tokens >= 1 || s.elems >= 1) && s.blocked_pop >= 1;
         if !stuck {
             if s.blocked_pop_timeout == 0 || t0.elapsed() > Duration::from_millis(60) {
@@ -516,7 +516,7 @@ fn workload_c(ctx: &Ctx, env: &Env, rng: &mut Rng, cs: u64) {
                 }
                 let before = sh.unblocked_returns.load(Ordering::SeqCst) + sh.delivered.lock().unwrap().len();
                 sh.ev_pub("mon", format!("stuck {:?} -> kick unblock()", s));
-                server.unblock();
+                server.vunblock();
                 let moved = wait_for(Duration::from_millis(150), || {
                     sh.unblocked_returns.load(Ordering::SeqCst) + sh.delivered.lock().unwrap().len() > before
                 });
@@ -545,7 +545,7 @@ fn workload_c(ctx: &Ctx, env: &Env, rng: &mut Rng, cs: u64) {
     if verdict.is_none() {
         // wait for timed receivers to settle, then count
         sleep_us(3000);
-        let s = server.verif_queue_snapshot();
+        let s = server.vsnap();
         let b = s.blocked_pop;
         let timed_alive = s.blocked_pop_timeout;
         if s.tokens == 0 && timed_alive == 0 && b >= 1 {
@@ -558,12 +558,12 @@ fn workload_c(ctx: &Ctx, env: &Env, rng: &mut Rng, cs: u64) {
                 let before = sh.unblocked_returns.load(Ordering::SeqCst);
                 sh.exit_on_unblock.store(true, Ordering::SeqCst);
                 for _ in 0..b {
-                    server.unblock();
+                    server.vunblock();
                 }
                 let ok = wait_for(Duration::from_millis(1500), || sh.unblocked_returns.load(Ordering::SeqCst) >= before + b);
                 sleep_us(3000);
                 let after = sh.unblocked_returns.load(Ordering::SeqCst);
-                let s2 = server.verif_queue_snapshot();
+                let s2 = server.vsnap();
                 rep.inc("C_final_release_checked");
                 if after - before != b || s2.blocked_pop != 0 {
                     if !ok && !cal.healthy(Duration::from_millis(150)) {
@@ -678,7 +678,7 @@ fn workload_t(ctx: &Ctx, env: &Env, rng: &mut Rng, cs: u64) {
     if try_blocked.is_some() {
         // release whatever is stuck
         for _ in 0..8 {
-            server.unblock();
+            server.vunblock();
         }
     }
     for h in hs {
@@ -688,7 +688,7 @@ fn workload_t(ctx: &Ctx, env: &Env, rng: &mut Rng, cs: u64) {
         let _ = c.await_finals(sent, &|_| false, Duration::from_millis(300));
     }
     for _ in 0..1000 {
-        let s = server.verif_queue_snapshot();
+        let s = server.vsnap();
         if s.elems == 0 && s.tokens == 0 {
             break;
         }
@@ -815,6 +815,18 @@ pub fn run(ctx: &Ctx) {
         let which = if timing_shard { 3 } else { (idx % 3) as usize };
         run_case(ctx, &env, cs, which);
         env.cases_run += 1;
+        if LIB_PANICKED.load(Ordering::SeqCst) {
+            violation(
+                ctx,
+                "C17/receive-call-panicked",
+                "a receive call (or unblock) panicked inside the library instead of returning".into(),
+                J::obj().set("panics", J::A(crate::p07::panic_texts().iter().take(6).map(J::s).collect())),
+                cs,
+                ["A", "B", "C", "T"][which],
+            );
+            std::mem::forget(env);
+            break;
+        }
         idx += 1;
         if ctx.rep.n_violations() >= 8 {
             break;
